@@ -124,6 +124,8 @@ def run_cases(chk, fam, cases, label='', peers=None, python=None):
     if tres is None:
         return res, recs, verdicts
     chk.add_tlc('Trace_Run' + (' ' + label if label else ''), tres)
+    if python is None:
+        validate_ispec(chk, cases, recs, label)
     for c, rec in zip(cases, recs):
         v = verdicts.get(c['id'])
         if v is None:
@@ -144,6 +146,161 @@ def run_cases(chk, fam, cases, label='', peers=None, python=None):
                            'stdout_tail': res[c['id']].get('stdout', '')[-2000:],
                            'stderr_tail': res[c['id']].get('stderr', '')[-2000:]})
     return res, recs, verdicts
+
+
+BADK = {'F', 'E', 'U', 'SF', 'SE'}
+
+
+def ispec_record(case, rec):
+    """the world / options / per-process event logs in the vocabulary of
+    Runner.tla, or None when the case uses something Runner.tla does not model
+    (filters, levels, nested suites, scripted crashes, import trouble)"""
+    world, o = case['world'], case['o']
+    if world.get('suite') or world.get('import', 'ok') != 'ok' or world.get('env'):
+        return None
+    if any(k in o for k in ('t', 'm', 'layer', 'unit', 'non_unit', 'only_level', 'all', 'at_level',
+                            'shuffle', 'list', 'extra')):
+        return None
+    for cs in world['classes'].values():
+        if 'level' in cs or cs.get('cls_skip'):
+            return None
+    for t in world['tests'].values():
+        if 'layer' in t or 'level' in t:
+            return None
+
+    def simple(b):
+        return isinstance(b, str) or (isinstance(b, dict) and set(b) <= {'exc', 'chain'})
+    for l in world['layers'].values():
+        if not simple(l.get('setUp', 'ok')) or not simple(l.get('tearDown', 'ok')):
+            return None
+        if l.get('testSetUp', 'ok') != 'ok' or l.get('testTearDown', 'ok') != 'ok':
+            return None
+    w = rec['w']
+    names = list(world['layers'])
+    tests = {l: [] for l in names}
+    unit = ''
+    for cs in world['classes'].values():
+        l = cs.get('layer') or 'U'
+        if l == 'U':
+            unit = 'U'
+            tests.setdefault('U', [])
+        for t in cs['tests']:
+            kinds = w['ref'].get(t, [])
+            kind = 'skipdeco' if w['decoSkip'].get(t) else ('bad' if BADK & set(kinds) else 'good')
+            tests[l].append(kind)
+    layers = sorted(tests, key=lambda l: abstract.layer_real_name('' if l == 'U' else l))
+
+    def beh(b):
+        if b == 'ok':
+            return 'ok'
+        if b == 'notimpl' or b == 'NotImplementedError' or (isinstance(b, dict) and b.get('exc') == 'NotImplementedError'):
+            return 'notimpl'
+        return 'raise'
+    # which scripted behaviour a layer's setUp / tearDown really has: a class
+    # layer without its own hook inherits the hook (and its behaviour) of the
+    # first class in its MRO that defines it; instance layers inherit nothing
+    order = world.get('layer_order') or list(world['layers'])
+    dummies = {}
+    for l in order:
+        ls = world['layers'][l]
+        if ls.get('kind', 'class') == 'class':
+            dummies[l] = type(l, tuple(dummies[b] for b in ls.get('bases', ()) if b in dummies) or (object,), {})
+
+    def eff_beh(l, hook):
+        if l == 'U':
+            return 'ok'
+        ls = world['layers'][l]
+        allh = ['setUp', 'tearDown', 'testSetUp', 'testTearDown']
+        if hook in ls.get('hooks', allh):
+            return beh(ls.get(hook, 'ok'))
+        if ls.get('kind', 'class') != 'class':
+            return 'ok'
+        for c in dummies[l].__mro__[1:]:
+            cs = world['layers'].get(c.__name__)
+            if cs is not None and cs.get('kind', 'class') == 'class' and hook in cs.get('hooks', allh):
+                return beh(cs.get(hook, 'ok'))
+        return 'ok'
+    flag = lambda d, l: bool(d.get(l, False)) if l != 'U' else False        # noqa: E731
+    rw = {'layers': layers, 'unit': unit,
+          'bases': {l: (w['bases'].get(l, []) if l != 'U' else []) for l in layers},
+          'life': {l: flag(w['life'], l) for l in layers},
+          'perUp': {l: flag(w['perUp'], l) for l in layers},
+          'perDown': {l: flag(w['perDown'], l) for l in layers},
+          'tests': tests,
+          'suF': [l for l in names if eff_beh(l, 'setUp') != 'ok'],
+          'td': {l: eff_beh(l, 'tearDown') for l in layers}}
+    # a setUp that raises NotImplementedError is an ordinary failure of that hook
+    layer_of = {t: (cs.get('layer') or 'U') for cs in world['classes'].values() for t in cs['tests']}
+    procs, cur, seen = [], None, set()
+    for e in rec['ev']:
+        k = e['e']
+        if k == 'PS':
+            cur = ['parent' if e['s'] == 'parent' else (e['l'] or 'U'), []]
+            procs.append(cur)
+            seen = set()
+        elif cur is None:
+            continue
+        elif k in ('SUB', 'TDB') and not e['x']:
+            cur[1].append([k, e['l'], ''])
+        elif k in ('SUE', 'TDE') and not e['x']:
+            cur[1].append([k, e['l'], e['s']])
+        elif k in ('TSU', 'TTD'):
+            cur[1].append([k, e['l'], ''])
+        elif k == 'T' and (e['t'], e['it']) not in seen:
+            seen.add((e['t'], e['it']))
+            cur[1].append(['T', layer_of.get(e['t'], '?'), ''])
+        elif k in ('CRASH', 'CUT'):
+            return None
+    return {'id': case['id'], 'w': rw,
+            'opt': {'repeat': o.get('repeat', 1), 'stop': bool(o.get('stop')), 'par': o.get('j', 1) > 1},
+            'procs': procs}
+
+
+def validate_ispec(chk, cases, recs, label=''):
+    """trace validation against Runner.tla itself (DRIFT only, never an alarm)"""
+    irecs = [r for r in (ispec_record(c, rec) for c, rec in zip(cases, recs)) if r is not None]
+    if not irecs:
+        return
+    # binding self-test: one trace with two events swapped and one with an
+    # event dropped must NOT be explained by the spec
+    import copy as _copy
+    muts = []
+    for r in irecs:
+        logs = [p for p in r['procs'] if len(p[1]) >= 4]
+        if logs and len(muts) < 2:
+            m = _copy.deepcopy(r)
+            lg = [p for p in m['procs'] if len(p[1]) >= 4][0][1]
+            if not muts:
+                k = next((i for i in range(len(lg) - 1) if lg[i] != lg[i + 1]), 0)
+                lg[k], lg[k + 1] = lg[k + 1], lg[k]
+                m['id'] = 'MUT-swap-' + r['id']
+            else:
+                del lg[len(lg) // 2]
+                m['id'] = 'MUT-drop-' + r['id']
+            muts.append(m)
+    fd, path = tempfile.mkstemp(prefix='verif-runI-', suffix='.json')
+    with os.fdopen(fd, 'w') as f:
+        json.dump(irecs + muts, f)
+    try:
+        res = tlc.run('Trace_RunnerI', 'Trace_RunnerI', env={'TRACE_FILE': path}, timeout=1800)
+    finally:
+        os.unlink(path)
+    chk.add_tlc('Trace_RunnerI' + (' ' + label if label else ''), res)
+    out = {v[1]: (v[2], v[3]) for v in tlc.printed_tuples(res.out, 'RUNI')}
+    for m in muts:
+        if out.get(m['id'], ('', ''))[0] != 'DRIFT':
+            chk.machinery('binding self-test: the corrupted trace %s was explained by Runner.tla' % m['id'])
+        out.pop(m['id'], None)
+    chk.extra['ispec_corrupted_traces_rejected'] = chk.extra.get('ispec_corrupted_traces_rejected', 0) + len(muts)
+    ok = len([1 for v in out.values() if v[0] == 'OK'])
+    drift = [(i, v[1]) for i, v in out.items() if v[0] != 'OK']
+    missing = [r['id'] for r in irecs if r['id'] not in out]
+    chk.extra['ispec_traces'] = chk.extra.get('ispec_traces', 0) + len(irecs)
+    chk.extra['ispec_traces_explained'] = chk.extra.get('ispec_traces_explained', 0) + ok
+    chk.extra['ispec_drift'] = chk.extra.get('ispec_drift', 0) + len(drift) + len(missing)
+    if drift or missing:
+        chk.notes.append('DRIFT: Runner.tla predicts other events than recorded for %s (no verdict: %s)'
+                         % (drift[:6], missing[:4]))
 
 
 def exec_pairs(ev):
